@@ -32,6 +32,8 @@ func main() {
 		vlib.Group{Name: "spatial-triangles", Gen: genSpatialTriangles},
 		vlib.Group{Name: "f64-ge", Gen: genGe(geF64())},
 		vlib.Group{Name: "f32-ge", Gen: genGe(geF32())},
+		vlib.Group{Name: "blas64-ge", Gen: genGe(geBlas64())},
+		vlib.Group{Name: "blas32-ge", Gen: genGe(geBlas32())},
 		vlib.Group{Name: "f64-bounds", Gen: genBounds(f64Table())},
 		vlib.Group{Name: "f32-bounds", Gen: genBounds(f32Table())},
 		vlib.Group{Name: "c128-bounds", Gen: genBounds(c128Table())},
